@@ -191,7 +191,7 @@ Definition union_key (val_is_str : bool) (t : ty) : nat :=
 Fixpoint insert_by {A} (key : A -> nat) (x : A) (l : list A) : list A :=
   match l with
   | [] => [x]
-  | y :: l' => if Nat.ltb (key x) (key y) then x :: l else y :: insert_by key x l'
+  | y :: l' => if Nat.leb (key x) (key y) then x :: l else y :: insert_by key x l'   (* leb: stable (x comes from the left) *)
   end.
 Definition stable_sort {A} (key : A -> nat) (l : list A) : list A :=
   fold_right (insert_by key) [] l.
@@ -420,10 +420,14 @@ Definition check_type_g (t : ty) (v0 : val) : ares :=
 (* one key through a parse method: the action adapts the value, and validation re-checks the
    result (its outcome is discarded, only success matters; None is skipped) *)
 Definition parse_key_g (t : ty) (v0 : val) : ares :=
-  match check_type_g t v0 with
-  | AOk VNone => AOk VNone
-  | AOk w => match check_type_g t w with AOk _ => AOk w | AErr e => AErr e end
-  | r => r
+  match v0 with
+  | VNone => AOk VNone       (* a Python None given for a key means "unset": _check_value_key returns it (lenient_check) *)
+  | _ =>
+    match check_type_g t v0 with
+    | AOk VNone => AOk VNone
+    | AOk w => match check_type_g t w with AOk _ => AOk w | AErr e => AErr e end
+    | r => r
+    end
   end.
 
 (* ---- serialisation: ActionTypeHint.serialize = adapt_typehints(value, serialize=True) ------------ *)
